@@ -11,7 +11,8 @@ def cases(tier, seed):
     t0s = [0.0, 1000.0] if tier == "quick" else c10.T0_ALL
     for combo in [0, 1, 2, 3]:
         yield {"runtime": "cpp", "combo": combo, "hs": hs if (tier != "quick" or combo in (0, 3)) else hs[:2],
-               "t0s": t0s if (tier != "quick" or combo in (0, 3)) else t0s[:1], "full_triples": tier == "thorough"}
+               "t0s": t0s if (tier != "quick" or combo in (0, 3)) else t0s[:1], "full_triples": tier == "thorough",
+               "long": tier != "quick" or combo in (0, 3)}
 
 
 def eval_case(case):
@@ -41,6 +42,10 @@ def eval_case(case):
                     jobs.append((h, ticks))
                     if case.get("full_triples") and t0 == case["t0s"][0]:
                         jobs.append((h, [(f, a, b) for f in g for a in g for b in g]))
+            # long moves (see c10.cases): thousands of whole steps of a maximum step that is not a whole number of nanoseconds
+            if case.get("long"):
+                for h in c10.LONG_HS:
+                    jobs.append((h, [(t0, t0 + sgn * N * h, t0) for t0 in c10.T0_QUICK for N in c10.LONG_NS[:2] for sgn in (1.0, -1.0)]))
         for h, ticks in jobs:
             lines = []
             plan = []  # (held, a, b)
